@@ -42,6 +42,9 @@ class Subroutine:
         self._netqasm_version: Tuple[int, int] = netqasm_version
         self._app_id: Optional[int] = app_id
 
+        # The instructions as they were before templates were filled in (see `instantiate`)
+        self._templated_instructions: Optional[List[NetQASMInstruction]] = None
+
         self._instructions: List[NetQASMInstruction] = []
         if instructions is not None:
             self.instructions = instructions
@@ -75,6 +78,8 @@ class Subroutine:
     @instructions.setter
     def instructions(self, new_instructions: List[NetQASMInstruction]) -> None:
         self._instructions = new_instructions
+        # A new program: what was kept of an earlier one for re-instantiation no longer applies
+        self._templated_instructions = None
 
     @property
     def arguments(self) -> List[str]:
@@ -83,8 +88,15 @@ class Subroutine:
     def instantiate(
         self, app_id: int, arguments: Optional[Dict[str, int]] = None
     ) -> None:
+        # A pre-compiled subroutine can be instantiated again (with other values): the templates
+        # are always filled in starting from the instructions that still contain them.
+        source = self._templated_instructions
+        if source is None or not arguments:
+            # (nothing to fill in: the current instructions are only addressed to `app_id`)
+            source = self.instructions
+        has_templates = False
         instrs: List[NetQASMInstruction] = []
-        for instr in self.instructions:
+        for instr in source:
             if isinstance(instr, DebugInstruction):
                 # Comments of a debug transpilation have no operands to fill in
                 instrs.append(instr)
@@ -94,11 +106,14 @@ class Subroutine:
                 if isinstance(op, Template):
                     assert arguments is not None
                     ops.append(arguments[op.name])
+                    has_templates = True
                 else:
                     ops.append(op)
             instrs.append(instr.from_operands(ops))
 
-        self.instructions = instrs
+        self._instructions = instrs
+        if has_templates:
+            self._templated_instructions = list(source)
         self._app_id = app_id
 
     def __str__(self):
